@@ -333,6 +333,60 @@ theorem get_either (h : PartOK tA tI key st) {k : κ} {v : α} :
 
 end PartOK
 
+/-! ### soundness of the Boolean well-formedness checks -/
+
+section checks
+variable {κ α ι : Type} [DecidableEq κ] [DecidableEq ι]
+
+theorem all_of_get {t : Tbl κ α} {P : κ × α → Bool} (h : t.all P = true) {k : κ} {v : α} (hg : t.get k = some v) :
+    P (k, v) = true := List.all_eq_true.mp h _ (Tbl.get_mem hg)
+
+theorem nodupKeys_iff {t : Tbl κ α} : nodupKeys t = true ↔ Tbl.Nodup t := by
+  unfold nodupKeys; rw [not_hasDup]; rfl
+
+theorem has_true_iff {t : Tbl κ Unit} {k : κ} : t.has k = true ↔ t.get k = some () := by
+  rw [Tbl.has_iff]
+  constructor
+  · rintro ⟨v, hv⟩; exact hv
+  · intro h; exact ⟨(), h⟩
+
+theorem partOK_of_b {tA tI : Tbl κ α} {key : α → κ} {st : α → Status} (h : partOKb tA tI key st = true) : PartOK tA tI key st := by
+  unfold partOKb at h
+  simp only [Bool.and_eq_true] at h
+  obtain ⟨⟨⟨⟨h1, h2⟩, h3⟩, h4⟩, h5⟩ := h
+  refine ⟨nodupKeys_iff.mp h1, nodupKeys_iff.mp h2, ?_, ?_, ?_⟩
+  · intro k v hg
+    have := all_of_get h3 hg
+    simpa using this
+  · intro k v hg
+    have := all_of_get h4 hg
+    simpa using this
+  · intro k v hg
+    have := all_of_get h5 hg
+    simp only [Bool.not_eq_true'] at this
+    exact (Tbl.has_eq_false_iff _ _).mp this
+
+theorem index_of_b {idx : Tbl ι Unit} {t : Tbl κ α} {recOf : ι → κ} {proj : κ → α → ι}
+    (h : indexOKb idx t recOf proj = true) (hrec : ∀ k v, recOf (proj k v) = k) (i : ι) :
+    idx.get i = some () ↔ ∃ v, t.get (recOf i) = some v ∧ proj (recOf i) v = i := by
+  unfold indexOKb at h
+  simp only [Bool.and_eq_true] at h
+  obtain ⟨h1, h2⟩ := h
+  constructor
+  · intro hg
+    have := all_of_get h1 hg
+    simp only at this
+    cases ht : t.get (recOf i) with
+    | none => rw [ht] at this; cases this
+    | some v => rw [ht] at this; exact ⟨v, rfl, of_decide_eq_true this⟩
+  · rintro ⟨v, hv, hp⟩
+    have := all_of_get h2 hv
+    simp only at this
+    rw [hp] at this
+    exact has_true_iff.mp this
+
+end checks
+
 /-! ### plan links -/
 
 theorem mem_linkedAddrs {s : State} {i : Nat} {a : Addr} : a ∈ linkedAddrs s i ↔ s.nodeForPlan.get (i, a) = some () := by
